@@ -164,11 +164,11 @@ impl<'ast, 'decls> ResolveIterator<'ast, 'decls>
                                 span,
                                 &util::BigInt::from(cur_bank_data.cur_position))?;
     
-                        cur_bank_data.cur_position += bits_until_alignment(
+                        cur_bank_data.cur_position = cur_bank_data.cur_position.saturating_add(bits_until_alignment(
                             report,
                             span,
                             cur_address_in_bits,
-                            label_align)?;
+                            label_align)?);
                     }
                 }
 
@@ -336,13 +336,13 @@ impl<'ast, 'decls> ResolveIterator<'ast, 'decls>
                 let cur_bank_data = &mut self.bank_data[self.bank_ref.0];
 
                 // Advance the current bank's position
-                cur_bank_data.cur_position += {
+                cur_bank_data.cur_position = cur_bank_data.cur_position.saturating_add({
                     match instr.encoding.size
                     {
                         Some(size) => size,
                         None => 0,
                     }
-                };
+                });
             }
 
             asm::AstAny::DirectiveData(ast_data) =>
@@ -353,13 +353,13 @@ impl<'ast, 'decls> ResolveIterator<'ast, 'decls>
                 let cur_bank_data = &mut self.bank_data[self.bank_ref.0];
 
                 // Advance the current bank's position
-                cur_bank_data.cur_position += {
+                cur_bank_data.cur_position = cur_bank_data.cur_position.saturating_add({
                     match data_elem.encoding.size
                     {
                         Some(size) => size,
                         None => 0,
                     }
-                };
+                });
             }
 
             asm::AstAny::DirectiveRes(ast_res) =>
@@ -370,7 +370,7 @@ impl<'ast, 'decls> ResolveIterator<'ast, 'decls>
                 let cur_bank_data = &mut self.bank_data[self.bank_ref.0];
 
                 // Advance the current bank's position
-                cur_bank_data.cur_position += res.reserve_size;
+                cur_bank_data.cur_position = cur_bank_data.cur_position.saturating_add(res.reserve_size);
             }
 
             asm::AstAny::DirectiveAlign(ast_align) =>
@@ -392,11 +392,11 @@ impl<'ast, 'decls> ResolveIterator<'ast, 'decls>
                         span,
                         &util::BigInt::from(cur_bank_data.cur_position))?;
 
-                cur_bank_data.cur_position += bits_until_alignment(
+                cur_bank_data.cur_position = cur_bank_data.cur_position.saturating_add(bits_until_alignment(
                     report,
                     span,
                     cur_address_in_bits,
-                    align.align_size)?;
+                    align.align_size)?);
             }
 
             asm::AstAny::DirectiveAddr(ast_addr) =>
